@@ -26,6 +26,8 @@ K_POOL_WRITER = "pool-encoder-writer-survives-free"
 K_POOL_OFF = "pool-encoder-off-survives-free"
 K_DEC_SIMPLE = "decoder-reset-in-simple-mode-keeps-refer"
 K_PUBLISH = "struct-encoder-published-before-fields"
+K_POOL_DECBUF = "pool-decoder-keeps-user-input-as-read-buffer"
+K_DEC_BUF = "decoder-resetreader-keeps-previous-input-as-buffer"
 
 COQ_WITNESS = {
     K_RESETBUF: "C14_resetbuffer_refuted",
@@ -33,6 +35,8 @@ COQ_WITNESS = {
     K_POOL_OFF: "C14_reset_is_fresh_encoder_refuted_off",
     K_DEC_SIMPLE: "C14_decoder_simple_true_refuted",
     K_PUBLISH: "C14_registry_linearizable_refuted / C14_registry_linearizable_refuted_mutual",
+    K_POOL_DECBUF: "C14_reset_is_fresh_decoder_refuted / C14_pooled_decoder_buffer_leak / C14_pooled_decoder_hang",
+    K_DEC_BUF: "C14_pooled_decoder_buffer_leak (same mechanism on a user-held decoder)",
 }
 
 
@@ -70,7 +74,8 @@ class ValGen:
                 out += self.val(depth + 1)
             return out
         cls = r.choice([0, 0, 1, 2])
-        addr = 10 * cls + r.randint(1, 4)      # pointer identity: one address, one object
+        # pointer identity: one address, one object; pointers to the zero-size CC all compare equal in Go
+        addr = 10 * cls + (r.randint(1, 4) if cls != 2 else 0)
         key = (cls, addr)
         if key not in self.objs:
             n = [1, 2, 0][cls]
@@ -150,8 +155,8 @@ def gen_eseq(ctx, n):
     return cases
 
 
-def seq_model_line(kind, case, obs):
-    parts = [kind]
+def seq_model_line(kind, case, obs, flags="0000"):
+    parts = [kind + ":" + flags]
     for s, so in zip(case["sessions"], obs["sessions"]):
         parts.append("#")
         parts.append("%s %d %d" % (s["get"], so["got"], 1 if s["free"] else 0))
@@ -242,7 +247,7 @@ def short_obs(o):
 
 # ------------------------------------------------------------------------------ decoder sessions
 def wire_samples():
-    ok = ['s5"hello"', "i12345;", "7", "n", "e", "t", "f", "ux", "l5;", "l-77;", "d1.5;", "d-2.25;",
+    ok = ['s5"hello"', "i12345;", "7", "n", "e", "t", "f", "ux", "l5;", "l77;", "d1.5;", "d-2.25;",
           'a2{s5"hello"r1;}', 'a3{1i22;s2"ab"}', "a{}", 'a2{a1{s2"ab"}r2;}', 'a2{s2"ab"s2"ab"}', "a2{a1{1}r1;}",
           'a3{l9;d0.25;s3"abc"}']
     bad = ["", "r0;", "r3;", "Z", "a3{12", 'a2{s2"ab"r7;}', "a2{1Z}"]
@@ -302,7 +307,30 @@ def gen_dseq(ctx, n):
     cases.append({"id": d + 2, "kind": "dseq", "flavour": "directed", "sessions": [
         {"get": "pool", "ops": ["RB" + hx("Z"), "O4.2.1.1.0", "D", "G"], "free": True},
         {"get": "pool", "ops": ["G", "P", "RB" + hx("l5;"), "D", "Q"], "free": True}]})
+    cases.append({"id": d + 3, "kind": "dseq", "flavour": "directed", "sessions": [
+        {"get": "pool", "ops": ["RB" + hx("i42;xxxxxxxxxxxxxxxx"), "D", "RR" + hx("i7;"), "D"], "free": True},
+        {"get": "pool", "ops": ["RR" + hx('s19"secret-of-next-user"'), "D"], "free": True}]})
+    cases.append({"id": d + 4, "kind": "dseq", "flavour": "directed", "sessions": [
+        {"get": "pool", "ops": ["RB", "RR" + hx("i7;")], "free": True},
+        {"get": "pool", "ops": ["RR" + hx("i7;"), "D"], "free": True}]})
+    cases.append({"id": d + 5, "kind": "dseq", "flavour": "directed", "sessions": [
+        {"get": "newdec:" + hx('s5"hello"'), "ops": ["D", "RR" + hx('s5"WORLD"'), "D"], "free": False}]})
     return cases
+
+
+def same_decode_obs(model, seen):
+    """operation-by-operation comparison; the model's "clobbers the caller's slice" is an upper
+    bound of what can be seen (the bytes read may equal the bytes already there)"""
+    a, b = model.split(" "), seen.split(" ")
+    if len(a) != len(b):
+        return False
+    for x, y in zip(a, b):
+        if x == y:
+            continue
+        if x.startswith("d:") and y.startswith("d:") and x.endswith(":c1") and y.endswith(":c0") and x[:-3] == y[:-3]:
+            continue
+        return False
+    return True
 
 
 def eval_dseq(ctx, cases, byid, mlines):
@@ -317,22 +345,44 @@ def eval_dseq(ctx, cases, byid, mlines):
             ctx.bump("dseq_sessions", "reused" if so["got"] >= 0 else ("pool-new" if so["got"] == -1 else "held"))
             for ob in so["obs"]:
                 if ob.startswith("d:"):
-                    ctx.bump("dseq_decode_results", "panic" if "PANIC" in ob else ob.rsplit(":", 1)[1])
+                    p = ob.split(":")
+                    ctx.bump("dseq_decode_results", "hang" if p[1] == "HANG" else "panic" if p[1] == "PANIC" else p[-2])
+                    if p[-1] == "c1":
+                        ctx.bump("dseq_decode_results", "wrote-into-callers-slice")
             seen = " ".join(so["obs"])
-            if k >= len(msess) or msess[k] != seen:
+            if "..." in seen:
+                # a reference to a list that is still being read (only with a stale reference list): the value is
+                # cyclic; the model has no cyclic values
+                ctx.bump("dseq_inconclusive_cyclic_value")
+            elif k >= len(msess) or not same_decode_obs(msess[k], seen):
                 disagreements.append((c, o, k, msess[k] if k < len(msess) else "<missing>", seen))
             if s["get"] == "pool" and so["obs"] != so["shadow"]:
                 j = next(i for i, (a, b) in enumerate(zip(so["obs"], so["shadow"])) if a != b)
-                ctx.report("pool-decoder-state-survives-free:op-" + s["ops"][j][:2],
-                           "pooled decoder (released %d uses ago) is not like a new one: operation %r observed %s, a new decoder "
-                           "observes %s" % (so["got"], s["ops"][j][:40], so["obs"][j], so["shadow"][j]),
-                           {"case": c, "observation": o, "session": k, "failing_input": True})
+                ob = so["obs"][j]
+                if ob == "d:HANG" or ob.endswith(":c1"):
+                    key = K_POOL_DECBUF
+                    what = ("pooled decoder (released %d uses ago) still holds the slice an earlier user passed to ResetBytes as its read "
+                            "buffer: %s" % (so["got"], "reading from the next user's reader never returns (zero-length buffer: "
+                                            "loadMore spins)" if ob == "d:HANG" else
+                                            "the next user's input was read into the earlier user's slice (" + ob + ")"))
+                else:
+                    key = "pool-decoder-state-survives-free:op-" + s["ops"][j][:2]
+                    what = ("pooled decoder (released %d uses ago) is not like a new one: operation %r observed %s, a new decoder "
+                            "observes %s" % (so["got"], s["ops"][j][:40], ob, so["shadow"][j]))
+                ctx.report(key, what, {"case": c, "observation": o, "session": k, "failing_input": True,
+                                       "coq_witness": COQ_WITNESS.get(key)})
             if s["get"] != "pool":
                 simple = True
                 for j, (op, ob, fr) in enumerate(zip(s["ops"], so["obs"], so.get("fresh") or [])):
                     if op in ("S0", "S1"):
                         simple = op == "S1"
-                    if fr and fr != ob:
+                    if ob == "d:HANG" or (ob.startswith("d:") and ob.endswith(":c1")):
+                        ctx.report(K_DEC_BUF, "user-held decoder after %s: %s" % (
+                            " ; ".join(x[:12] for x in s["ops"][:j]),
+                            "Decode never returns: the zero-length slice of the previous ResetBytes/NewDecoder is used as the read buffer"
+                            if ob == "d:HANG" else "Decode read the reader's data into the slice of the previous ResetBytes/NewDecoder (" + ob + ")"),
+                            {"case": c, "observation": o, "session": k, "failing_input": True, "coq_witness": COQ_WITNESS.get(K_DEC_BUF)})
+                    elif fr and fr != ob:
                         key = K_DEC_SIMPLE if simple else "decoder-held-state-survives-reset"
                         ctx.report(key, "user-held decoder after %s: Decode of %s gives %s, NewDecoder on the same input in the same "
                                    "mode gives %s" % (" ; ".join(x[:12] for x in s["ops"][:j]), short_hex(last_input(s, j)), ob, fr),
@@ -460,6 +510,7 @@ SLOT_MODEL = {   # the sample values of types_gen.go as Registry.sval (L empty i
     1: "v1.1 k0 v3.1 k0 v3.0",                     # TB{Q: &TD{Self: &TD{}}}
     2: "v2.1 k0 v0.1 k0 v1.0",                     # &TC{Back: &TA{In: TB{}}}
     4: "v0.1 k0 v1.0",                             # &TA{In: TB{}}
+    5: "v3.1 k0 v3.0",                             # &TD{Self: &TD{}}
 }
 TYPE_LETTER = {0: "TA", 1: "TB", 2: "TC", 3: "TD", 4: "TF"}
 
@@ -495,7 +546,8 @@ def parse_structs(hexbytes):
                 while len(classes) < idx:
                     classes.append("?")
                 classes.append("?")
-            out.append(classes[idx])
+            # every generated type has fields: an object with an empty body was written with n = 0
+            out.append("?" if b[j + 1:j + 2] == b"}" else classes[idx])
             i = j + 1
         elif ch in "sb":
             ln, j = num(i + 1)
@@ -629,6 +681,33 @@ def report_race(ctx, s, k, op, solo, conc, forced, extra=None):
                rep)
 
 
+def func_body(path, header):
+    """text of the Go function whose declaration starts with [header] (up to the first line that is just '}')"""
+    try:
+        src = open(os.path.join(hv.REPO, path)).read()
+    except OSError:
+        return ""
+    i = src.find(header)
+    if i < 0:
+        return ""
+    j = src.find("\n}\n", i)
+    return src[i:j if j > 0 else len(src)]
+
+
+def detect_variant():
+    """which of the repairs proposed in hooks/c14-fix-*.patch the tree under test carries; a wrong guess
+    shows up as a correspondence disagreement, never as a silent pass"""
+    v = {
+        "resetbuffer_off": "enc.off = 0" in func_body("io/encoder.go", "func (enc *Encoder) ResetBuffer()"),
+        "free_writer": "Writer = nil" in func_body("io/pool.go", "func FreeEncoder("),
+        "reset_refer_always": "IsSimple()" not in func_body("io/decoder.go", "func (dec *Decoder) Reset()"),
+        "resetreader_drops": "dec.buf = nil" in func_body("io/decoder.go", "func (dec *Decoder) ResetReader("),
+        "encoder_locked": ".Lock()" in func_body("io/struct_encoder.go", "func newNamedStructEncoder("),
+    }
+    flags = "".join("1" if v[k] else "0" for k in ("resetbuffer_off", "free_writer", "reset_refer_always", "resetreader_drops"))
+    return v, flags
+
+
 def hook_present():
     p = os.path.join(hv.REPO, "io", "verif_on.go")
     try:
@@ -650,24 +729,31 @@ def build_hooked():
     return out
 
 
-FORCED = {   # shape -> (slot of goroutine 0, slot of goroutine 1, model schedule)
-    "enclosing": (1, 0, "0x2 1* 0*"),
-    "mutual": (4, 2, None),   # goroutine 0 is held when TF is published: computed below
+FORCED = {   # shape -> (slot of goroutine 0, slot of goroutine 1, model schedule, the same with the lock)
+    "enclosing": (1, 0, "0x2 1* 0*", "0x2 1* 0* 1*"),
+    # goroutine 0 = Marshal(*TA) runs until TF's placeholder is published: CGet TA, CNew TA, CHandler TB (miss), CGet TB,
+    # CNew TB, CHandler TD (miss), CGet TD, CNew TD, CHandler TD (hit), CAssign TD, CPublish TD, CAssign TB, CPublish TB,
+    # CHandler TC (miss), CGet TC, CNew TC, CHandler TA (hit: placeholder), CAssign TC, CPublish TC, CHandler TF (miss),
+    # CGet TF, CNew TF = 22 steps
+    "mutual": (4, 2, "0x22 1* 0*", "0x22 1* 0* 1*"),
+    # both publish their placeholder for TD (CGet miss, CNew), then goroutine 0 runs, then goroutine 1
+    "same": (5, 5, "0x2 1x2 0* 1*", "0x2 1x2 0* 1* 0*"),
 }
 
 
-def run_forced(ctx):
+def run_forced(ctx, locked_variant):
     r = ctx.rng
-    n = 4 if ctx.tier == "quick" else 16
+    n = 6 if ctx.tier == "quick" else 24
     disagreements = []
     for i in range(n):
-        shape = "enclosing" if i % 2 == 0 else "mutual"
-        simple = (i // 2) % 2 == 0
+        shape = ("enclosing", "mutual", "same")[i % 3]
+        simple = (i // 3) % 2 == 0
         g = r.randrange(N_GROUPS)
-        s0, s1, sched = FORCED[shape]
+        s0, s1, sched, sched_locked = FORCED[shape]
         case = {"id": 500000 + i, "kind": "forced", "group": g, "seed": 7, "shape": shape, "simple": simple}
         solo_case = {"id": 510000 + i, "kind": "race", "group": g, "seed": 7, "conc": False,
                      "ops": [{"op": "marshal", "slot": s0, "simple": simple}, {"op": "marshal", "slot": s1, "simple": simple}]}
+        # (the sample values of slot 5 do not depend on the seed)
         rc, o, err = run_one_process("c14hook", case)
         rc2, solo, err2 = run_one_process("c14hook", solo_case)
         if o is None or solo is None:
@@ -680,15 +766,9 @@ def run_forced(ctx):
         ctx.count_case("forced|%s|%d|%s" % (shape, g, simple), nontrivial=True)
         ctx.bump("forced_shape", shape + (":reader-blocked" if o.get("blocked") else ""))
         # model: the same schedule through Registry.step (locked variant when the reader was blocked)
-        if shape == "mutual":
-            # goroutine 0 = Marshal(*TA) runs until TF's placeholder is published: CGet TA, CNew TA, CHandler TB (miss),
-            # CGet TB, CNew TB, CHandler TD (miss), CGet TD, CNew TD, CHandler TD (hit), CAssign TD, CPublish TD, CAssign TB,
-            # CPublish TB, CHandler TC (miss), CGet TC, CNew TC, CHandler TA (hit: placeholder), CAssign TC, CPublish TC,
-            # CHandler TF (miss), CGet TF, CNew TF  = 22 steps
-            sched = "0x22 1* 0*"
-        locked = 1 if o.get("blocked") else 0
+        locked = 1 if locked_variant else 0
         if locked:
-            sched = sched + " 1*"
+            sched = sched_locked
         line = "reg %d %s ; %s %s ; %s" % (locked, GROUP_TENV, SLOT_MODEL[s0], SLOT_MODEL[s1], sched)
         m = hv.run_model("c14", [line])[0]
         mouts = [x.strip().split(" ") for x in m.split(" ; ")[0].split(" | ")]
@@ -696,8 +776,9 @@ def run_forced(ctx):
         for toks in mouts:
             want_tokens.append([TYPE_LETTER[int(t[1:])] if t[0] == "F" else "?" for t in toks if t])
         seen_tokens = [parse_structs(o["outs"][0]), parse_structs(o["outs"][1])]
-        if seen_tokens != want_tokens:
-            disagreements.append((case, o, 0, json.dumps(want_tokens), json.dumps(seen_tokens)))
+        if seen_tokens != want_tokens or bool(o.get("blocked")) != bool(locked):
+            disagreements.append((case, o, 0, json.dumps(want_tokens) + " reader-blocked=%s" % bool(locked),
+                                  json.dumps(seen_tokens) + " reader-blocked=%s" % bool(o.get("blocked"))))
         for k in (0, 1):
             if o["outs"][k] != solo["outs"][k] or o["errs"][k] != solo["errs"][k]:
                 report_race(ctx, dict(case, ops=solo_case["ops"]), k, solo_case["ops"][k], solo, o, forced=True,
@@ -735,17 +816,19 @@ def run(ctx):
     hv.build_modelrun("c14")
     hook = hook_present()
     ctx.note("yield_hook_in_tree", hook)
+    variant, flags = detect_variant()
+    ctx.note("variant_of_tree_under_test", variant)
     quick = ctx.tier == "quick"
     disagreements = []
 
     cases = gen_eseq(ctx, 700 if quick else 6000)
     cases, byid = run_cases(ctx, "c14", cases, "eseq")
-    ml = hv.run_model("c14", [seq_model_line("eseq", c, byid[c["id"]]) for c in cases])
+    ml = hv.run_model("c14", [seq_model_line("eseq", c, byid[c["id"]], flags) for c in cases])
     disagreements += [("eseq",) + d for d in eval_eseq(ctx, cases, byid, ml)]
 
     cases = gen_dseq(ctx, 700 if quick else 6000)
     cases, byid = run_cases(ctx, "c14", cases, "dseq")
-    ml = hv.run_model("c14", [seq_model_line("dseq", c, byid[c["id"]]) for c in cases])
+    ml = hv.run_model("c14", [seq_model_line("dseq", c, byid[c["id"]], flags) for c in cases])
     disagreements += [("dseq",) + d for d in eval_dseq(ctx, cases, byid, ml)]
 
     cases = gen_scribble(ctx)
@@ -774,7 +857,7 @@ def run(ctx):
 
     if hook:
         build_hooked()
-        disagreements += [("forced",) + d for d in run_forced(ctx)]
+        disagreements += [("forced",) + d for d in run_forced(ctx, variant["encoder_locked"])]
     else:
         ctx.note("forced_note", "the tree under test has no yield hook in io/: the witness schedules of C14_registry_linearizable_refuted"
                  "[_mutual] are proved for the model but not replayed on the implementation (apply hooks/c14-io.patch to enable)")
@@ -823,17 +906,15 @@ def replay(ctx, path):
     o = obs[0]
     bad = False
     if case["kind"] in ("eseq", "dseq"):
-        for s, so in zip(case["sessions"], o["sessions"]):
-            if s["get"] == "pool" and so["obs"] != so["shadow"]:
-                print("pooled use differs from a new coder:", so["obs"], "vs", so["shadow"])
-                bad = True
-            if case["kind"] == "eseq" and writer_delivery_oracle(s, so):
-                print("writer delivery:", writer_delivery_oracle(s, so))
-                bad = True
-            for ob, fr in zip(so["obs"], so.get("fresh") or []):
-                if fr and fr != ob:
-                    print("held decoder differs from NewDecoder:", ob, "vs", fr)
-                    bad = True
+        # the same oracles as the run (they do not use the model's answer)
+        sub = hv.Ctx(ctx.pid, ctx.tier, ctx.seed)
+        sub.known = []
+        ml = [""]          # the model's answer only feeds the correspondence, not the oracles
+        case.setdefault("flavour", "replay")
+        (eval_eseq if case["kind"] == "eseq" else eval_dseq)(sub, [case], {case["id"]: o}, ml)
+        for key, what, _ in sub.violations:
+            print("oracle fails [%s]: %s" % (key, what[:400]))
+            bad = True
     elif case["kind"] in ("scribble", "viewapi"):
         changed = o.get("before") != o.get("after") or o.get("err_before") != o.get("err_after")
         print("changed after scribble:", changed)
